@@ -59,3 +59,41 @@ Definition path_join (l : list (list Z)) : list Z :=
   | [] => []
   | ne => path_clean (join_slash ne)
   end.
+
+(** ** What the operating system makes of a name (as opposed to what its text suggests)
+
+    [generate] hands its [-dest] to [Create] as it is written, so the file is created where the
+    operating system finds that name: the elements are followed one by one, a directory that is a
+    symbolic link is replaced by the directory it points to, and ".." leaves the directory reached so
+    far -- not the directory the text of the name was in.  A link is given by its own place (the
+    elements that lead to it from the top directory of the tree) and the place it points to. *)
+Fixpoint elems_eqb (a b : list (list Z)) : bool :=
+  match a, b with
+  | [], [] => true
+  | x :: r, y :: q => zs_eqb x y && elems_eqb r q
+  | _, _ => false
+  end.
+
+Definition link_table := list (list (list Z) * list (list Z)).
+
+Fixpoint find_link (ls : link_table) (place : list (list Z)) : option (list (list Z)) :=
+  match ls with
+  | [] => None
+  | (l, t) :: r => if elems_eqb l place then Some t else find_link r place
+  end.
+
+(** one element followed; the stack holds the place reached so far, last element first *)
+Definition phys_step (ls : link_table) (st : list (list Z)) (e : list Z) : list (list Z) :=
+  if zs_eqb e [] || zs_eqb e dot then st
+  else if zs_eqb e dotdot then match st with _ :: below => below | [] => [] end
+  else match find_link ls (rev (e :: st)) with
+       | Some t => rev t
+       | None => e :: st
+       end.
+
+Definition phys_elems (ls : link_table) (es : list (list Z)) : list (list Z) :=
+  rev (fold_left (phys_step ls) es []).
+
+(** the place a name relative to the top directory denotes *)
+Definition phys_name (ls : link_table) (p : list Z) : list Z :=
+  join_slash (phys_elems ls (split_slash p [])).
